@@ -111,8 +111,15 @@ def api_scripts(tier, rng, n=None):
         L.append(f"poke_limit 1 {which} {H(ssrcs[0])} 0 {H(start)} 0")
         # the receiver's budget may also be the smaller one, so that srtp_unprotect itself reaches the hard limit
         L.append(f"poke_limit 2 {which} {H(ssrcs[0])} 0 {H(max(1, start + rng.choice([0, 1, 2, -1, -2])))} 0")
+        rocs = {s: 0 for s in ssrcs}
         for i in range(10):
-            traffic(rng.choice(ssrcs), 0)
+            s_ = rng.choice(ssrcs)
+            if k % 4 == 0 and i in (2, 6):
+                # the application moves the rollover counter ahead on both sides: the next packet takes the index-advance path of
+                # srtp_protect / srtp_unprotect, which uses up the key budget like every other packet
+                rocs[s_] += rng.choice([1, 3])
+                L.append(f"setroc 1 {H(s_)} {H(rocs[s_])}"); L.append(f"setroc 2 {H(s_)} {H(rocs[s_])}")
+            traffic(s_, 0)
             if mki and rng.random() < 0.3:
                 traffic(rng.choice(ssrcs), 1)          # the other key is not affected
         L += ["dealloc 1", "dealloc 2"]
